@@ -34,7 +34,7 @@ func (c05) Info() core.Info {
 	return core.Info{
 		Runs:     map[string]int{"quick": 60000, "thorough": 5000000},
 		Isolated: true,
-		Rule:     "Each run builds a well-formed multi-PID stream (PAT, multi-packet PMT with descriptors, PES starts with PTS/DTS, EBPs of both flavours in adaptation-field private data, splice_info_sections of all supported shapes incl. MID UPIDs, component lists and sub-segments, null packets; scripted packetisation and multiplex), applies 0..4 scripted faults (length/flag field of a message flipped / set to 0,1,max / +-k, uniform bit flips, message truncation, packet drop/dup/swap, header/adaptation-field bit flips, stream truncation at any byte, byte insert/delete, garbage prefix) and drives the damaged stream through the receive pipeline the way cli/parsefile.go does (Sync -> ReadPAT -> ReadPMT per program -> per-packet parsing) extended to every decoding entry point, the modifiers (re-stamper stage), the accumulators with the library predicates, the tracker and the writer adapter; every object returned without error is queried through all getters, printed and re-encoded. Every library call is guarded (no panic), journaled and watched (no hang, bounded heap growth); read-only calls must leave caller buffers untouched. Plus a complete sweep, for 4 fixed streams, of every single-bit flip of every marked length/flag field and of stream truncation at every byte offset. Non-trivial = at least one fault fired or reach probe hit.",
+		Rule:     "Each run builds a well-formed multi-PID stream (PAT, multi-packet PMT with descriptors, PES starts with PTS/DTS, EBPs of both flavours in adaptation-field private data, splice_info_sections of all supported shapes incl. MID UPIDs, component lists and sub-segments, null packets; scripted packetisation and multiplex), applies 0..4 scripted faults (length/flag field of a message flipped / set to 0,1,max / +-k, uniform bit flips, message truncation, packet drop/dup/swap, header/adaptation-field bit flips, stream truncation at any byte, byte insert/delete, garbage prefix) and drives the damaged stream through the receive pipeline the way cli/parsefile.go does (Sync -> ReadPAT -> ReadPMT per program -> per-packet parsing) extended to every decoding entry point, the modifiers (re-stamper stage), the accumulators with the library predicates, the tracker and the writer adapter; every object returned without error is queried through all getters, printed and re-encoded. Every library call is guarded (no panic), journaled and watched (no hang, bounded heap growth); read-only calls must leave caller buffers untouched. Plus a complete sweep, for 4 fixed streams, of every single-bit flip of every marked length/flag field and of stream truncation at every byte offset. Non-trivial = at least one fault fired or reach probe hit. Added in waves 19-21: a decoded signal drops its first / all descriptors and every descriptor the caller still holds is queried again; PMT objects are queried for every PID 0..8191; directed payloads with two program map sections; reader faults may answer Temporary()==true.",
 		Real:     []string{"packet (accessors, modifiers, Sync, accumulator, writer adapters)", "packet/adaptationfield", "psi (PAT, PMT, descriptors, filter, accessors)", "pes", "ebp", "scte35 (decoder, encoder for re-encoding, state)", "bufio/io (stdlib)"},
 		Stub:     []string{"stream producer (reference serialisers; SCTE-35 sections come from the library's own encoder)", "packetiser/multiplexer", "channel (fault list)", "SimReader", "pipeline driver mirroring cli/parsefile.go (the CLI binary itself is not executed)"},
 		Assumptions: []string{
